@@ -2,7 +2,7 @@ from vlib.core import *
 import struct, math, concurrent.futures
 
 META = dict(
-    level_text="Proved (Lean) for the Spectra-owned algebra of the wrappers, all sizes and any commutative ring/field: every wrapper with a triangle option is a function of symFromTri uplo M only (c11_triangle_only_*), SymShiftInvert's triangle-wise assembly equals the read triangle of sym(A) - sigma sym(B) for all 4 pairings x 4 (UploA,UploB) (c11_shiftinvert_assembly*), the five composite operators equal their documented operators given their parts (c11_cayley, c11_cholesky_op, c11_reginv_op, c11_buckling_op, c11_shiftinvert_op), the fill-reducing permutation of SparseCholesky cancels and F = L^-1 P is an inverse factor of B (c11_sparse_chol_perm, c11_perm_roundtrip), the real block system gives Re[(A - sigma I)^-1 x] (c11_real_part), and the template footprint regenerated from the headers passes Uplo to every Eigen member/view/compute call except the recorded ConjugateGradient (c11_uplo_passthrough_partial) and SymShiftInvertHelper has exactly the view/transposition structure the assembly model mirrors (c11_helper_footprint). Each template configuration itself is decided by translation validation: the real class is run against the executable specification `spec uplo M` (model's own Cholesky / Gaussian elimination from the full symmetric matrix) with tolerance 256 n eps scale, plus the metamorphic junk-triangle run (bit-identical) and a long-double oracle of the documented operator. Eigen's decompositions are trusted.",
+    level_text="Proved (Lean) for the Spectra-owned algebra of the wrappers, all sizes and any commutative ring/field: every wrapper with a triangle option is a function of symFromTri uplo M only (c11_triangle_only_*), SymShiftInvert's triangle-wise assembly equals the read triangle of sym(A) - sigma sym(B) for all 4 pairings x 4 (UploA,UploB) (c11_shiftinvert_assembly*), the five composite operators equal their documented operators given their parts (c11_cayley, c11_cholesky_op, c11_reginv_op, c11_buckling_op, c11_shiftinvert_op), the fill-reducing permutation of SparseCholesky cancels and F = L^-1 P is an inverse factor of B (c11_sparse_chol_perm, c11_perm_roundtrip), the real block system gives Re[(A - sigma I)^-1 x] (c11_real_part), and the template footprint regenerated from the headers passes Uplo to every Eigen member/view/compute call (c11_uplo_passthrough), instantiates SparseLU column-major for general matrices and otherwise only on matrices declared symmetric (c11_sparselu_colmajor_or_symmetric), tests info() and throws in every factorizing set_shift whose solver can fail (c11_shift_failure_throws), SparseRegularInverse::solve as coded equals the spec for both triangles (c11_reginv_solve) and SymShiftInvertHelper has exactly the view/transposition structure the assembly model mirrors (c11_helper_footprint). Each template configuration itself is decided by translation validation: the real class is run against the executable specification `spec uplo M` (model's own Cholesky / Gaussian elimination from the full symmetric matrix) with tolerance 256 n eps scale, plus the metamorphic junk-triangle run (bit-identical) and a long-double oracle of the documented operator. Eigen's decompositions are trusted.",
     note="Lean kernel + standard axioms; Eigen LLT/SimplicialLLT/PartialPivLU/SparseLU/ConjugateGradient and Spectra's BKLDLT (C10) modelled by their specification; the correspondence is sampled per configuration with a normwise tolerance, not bit-exact; float/long double/complex<float> configurations are covered by the long-double oracle only",
     technique="Lean 4 proof (entrywise case analysis, Mathlib Matrix algebra) + per-configuration translation validation against an executable specification + metamorphic triangle test",
     design="§5 C11", harnesses=[{'name': 'c11', 'parts': True}])
